@@ -69,7 +69,7 @@ def headers_hash():
     global _hdr_hash
     if _hdr_hash is None:
         h = hashlib.sha256()
-        roots = [os.path.join(REPO, "include"), os.path.join(VERIF, "engine")]
+        roots = [os.path.join(REPO, "include"), os.path.join(VERIF, "engine"), os.path.join(VERIF, "harness")]
         files = [os.path.join(REPO, "config.h")]
         for r in roots:
             for d, _, fs in os.walk(r):
